@@ -101,7 +101,7 @@ def run(ctx):
                 bias = rnd.choice([0.0, 0.25, -1.0])
                 bits = [0, 0, 0, 0, 1, 0, 0, 0, 0]
                 with deadline(60):
-                    w = DAC(bits, bias, vout, "gaussian", T=Tw, m=m)
+                    w = DAC(bits, bias, vout, "gaussian", T=Tw, m=m) if Tw != sps else DAC(bits, bias, vout, "gaussian", m=m)      # default width T = sps
                     s = SAMPLER(w, sps // 2)
                 y = np.abs(np.asarray(w.signal) - bias)          # pulse magnitude above the bias
                 i = int(np.argmax(y))
